@@ -208,6 +208,7 @@ PIPELINES = {
     "union_subquery_right": lambda t, u: (t >> pdt.select(t.i64, t.s)) >> pdt.union((lambda su: su >> pdt.filter(su.i64 > 1))(u >> pdt.select(u.i64, u.s) >> pdt.arrange(u.i64) >> pdt.slice_head(3) >> pdt.alias("su"))),
     "union_subquery_right_reordered": lambda t, u: (t >> pdt.select(t.i64, t.s)) >> pdt.union((lambda su: su >> pdt.filter(su.i64 > 1))(u >> pdt.select(u.s, u.i64) >> pdt.arrange(u.i64) >> pdt.slice_head(3) >> pdt.alias("su"))),
     "union_subquery_left": lambda t, u: (lambda st: st >> pdt.mutate(k=st.i64 + 1) >> pdt.select(st.i64, st.s))(t >> pdt.arrange(t.i64) >> pdt.slice_head(3) >> pdt.alias("st")) >> pdt.union(u >> pdt.select(u.i64, u.s)),
+    "union_mixed_types": lambda t, u: (t >> pdt.select(t.i64, t.s) >> pdt.mutate(tag=1, q=None)) >> pdt.union(u >> pdt.mutate(i64=u.f64, tag=2.5, q=u.i32) >> pdt.select(pdt.C.s, pdt.C.tag, pdt.C.q, pdt.C.i64)) >> pdt.filter(pdt.C.i64 > 0),
     "union_of_unions": lambda t, u: ((t >> pdt.select(t.i64)) >> pdt.union(u >> pdt.select(u.i64))) >> pdt.union((u >> pdt.alias("u2") >> pdt.select(pdt.C.i64)), distinct=True),
     "join_subquery_right": lambda t, u: t >> pdt.join((lambda su: su >> pdt.filter(su.i64 > 1))(u >> pdt.mutate(r=pdt.row_number(arrange=u.i64)) >> pdt.alias("su")), "i64", "left"),
     "rename_overwrite": lambda t, u: t >> pdt.rename({"i64": "s", "s": "i64"}) >> pdt.mutate(s=t.s + "x", fresh=t.i64),
